@@ -77,6 +77,19 @@ def tasks(tier):
         cfg = dict(M=4, per_class=pc, max_unknown=mu, alphabet=["ok", "x:U", "x:T", "r:U"],
                    sleeper="policy")
         out.append({"family": "permit-sugar", "cfg": cfg, "entry": e, "bound": 0})
+    # strategy tables with entries for non-retryable classes (a table built by comprehension over
+    # ErrorClass): PERMANENT / AUTH / PERMISSION stay non-retryable; and tables with no default
+    # and no entry for the failing class (UNKNOWN does not borrow another class's strategy)
+    for M, mu, e in itertools.product([2, 3], [None, 2], Q4 + ["Policy.call", "RetryPolicy.execute", "deco"]):
+        cfg = dict(M=M, max_unknown=mu, alphabet=["ok", "x:P", "r:A", "x:F", "x:T", "r:P"],
+                   strat={"default": "ctx", "per": {"P": "ctx", "A": "legacy", "F": "ctx", "T": "ctx"}},
+                   budget={"max": 3, "window": 8}, sleeper="call" if e != "deco" else "policy")
+        out.append({"family": "permit-nonretryable-with-strategy", "cfg": cfg, "entry": e, "bound": 0})
+    for M, mu, per, e in itertools.product([2, 3], [None, 2], [{"T": "ctx"}, {"T": "legacy", "R": "ctx"}, {"U": "ctx"}],
+                                           Q4 + ["Policy.call", "RetryPolicy.execute"]):
+        cfg = dict(M=M, max_unknown=mu, alphabet=["ok", "x:U", "r:U", "x:T", "x:R", "r:S"],
+                   strat={"default": None, "per": per}, budget={"max": 3, "window": 8})
+        out.append({"family": "permit-no-strategy-for-class", "cfg": cfg, "entry": e, "bound": 0})
     # a deadline of zero; handler decisions through the context-manager entry points
     for e in Q4 + ["Policy.call", "RetryPolicy.execute"]:
         cfg = dict(M=3, deadline=0, alphabet=["ok", "x:T", "r:T"], durs=[0, 1], max_unknown=None,
